@@ -308,3 +308,8 @@ Proof.
   - intros o1 o2 [<-|[]] [<-|[]]; cbn; intros; reflexivity.
   - intros o1 o2 [<-|[]] [<-|[]]; cbn; intros; no_prefix.
 Qed.
+
+Lemma wit_decl_ok outdirs labels : decl_ok (wit_decl outdirs labels).
+Proof.
+  split; [apply wit_decl_realizable|split; [constructor|]]. intros m. cbn. constructor; [intros []|constructor].
+Qed.
